@@ -11,7 +11,7 @@
    preserved by construction ([C12_valid_payload_preserved]).
 
    Scope: files of standard, non-ADV batches.  Outside Arith and therefore outside these
-   statements: isCategory (C12_succeeds_partial / known finding mixed-category), SEC specific
+   statements: isCategory (C12_category_uniform / known finding mixed-category), SEC specific
    rules, addenda sequence numbers.  IAT batches are not re-validated by File.Validate
    (C03 known finding) and are left out. *)
 From Coq Require Import List ZArith Permutation Sorted.
@@ -29,8 +29,8 @@ Print Assumptions C12_valid_payload_preserved.
 (* For all inputs, all admissible processing orders and map iteration orders: if every input
    batch validates, every consolidated batch validates after Create.  From the input's validity
    each (signature, entry) pair is admissible — accepted class, ODFI, EntryDetail.Validate, code
-   allowed by the class, trace above "0" and prefixed by the ODFI — and C12_valid_pairs_partial
-   carries that to the result; C12_valid_partial supplies non-emptiness and the strictly
+   allowed by the class, trace above "0" and prefixed by the ODFI — and C12_pairs_transported
+   carries that to the result; C12_wellformed supplies non-emptiness and the strictly
    ascending trace order; the control is Create's tabulation.  Assumed of the result: the
    consolidated totals still fit the control record (Create fails otherwise). *)
 Theorem C12_batch_arith_valid : forall hp fp inp out,
